@@ -93,6 +93,12 @@ type rbEnv struct {
 	note       string   // harness-level anomaly
 	exhausted  bool
 	panicked   bool
+	// lazy: confirmations that are queued behind a NEGATIVE one are handed over only when the worker next
+	// waits (P2), not right after the nack - they are "still in flight". The code as it is never looks at
+	// whether its confirmation channel is empty (it only receives from it), so this timing is not observable
+	// by it and the model needs no such notion; a worker that does look (e.g. to decide whether a channel
+	// can be kept after a failed attempt) behaves differently, which is the point.
+	lazy bool
 }
 
 func (e *rbEnv) touch() { e.last = time.Now() }
@@ -249,11 +255,14 @@ func (h rbHook) Fire(en *logrus.Entry) error {
 		e.mu.Lock()
 		e.touch()
 		found := false
+		nacked := false
 		for _, c := range e.chans {
 			if c.inBuf != nil && len(c.confCh) == 0 {
 				a := 0
 				if c.inBuf.ack {
 					a = 1
+				} else {
+					nacked = true
 				}
 				e.evs = append(e.evs, fmt.Sprintf("k%d.%d.%d", c.id, c.inBuf.tag, a))
 				c.inBuf = nil
@@ -266,7 +275,7 @@ func (h rbHook) Fire(en *logrus.Entry) error {
 		e.mu.Unlock()
 		e.hookTok()
 		e.mu.Lock()
-		if c := e.cur(); c != nil {
+		if c := e.cur(); c != nil && !(e.lazy && nacked) {
 			c.refillLocked()
 		}
 		e.touch()
@@ -498,6 +507,8 @@ func rbRunWith(prefix string, c Case) ([]string, []string) {
 				w.stop()
 			}
 			w = newRbWorker(b)
+			// timing the conforming code cannot observe: decided per case from its text
+			w.env.lazy = hashName(strings.Join(c.Lines, "|"))%2 == 0
 			emit(l, "ok")
 		case len(f) == 4 && f[0] == "rabbit" && f[1] == "batch" && w != nil:
 			if w.dead {
